@@ -96,7 +96,6 @@ theorem regraph_nodeOk (lib : List Cls) (n : Nat) (hn : n < size) (hl : n ∈ l)
   · rw [hcls, hnode, hty, hargs]; exact hok.cls
   · rw [hnode, hargs]; exact hok.names
   · rw [hnode, hargs]; exact hok.req
-  · rw [hnode, hargs]; exact hok.keys
 
 end Regraph
 
